@@ -2,6 +2,7 @@ package main
 
 import (
 	"fmt"
+	"sort"
 	"strings"
 
 	"golang.org/x/tools/go/ssa"
@@ -36,6 +37,8 @@ func checkC14(p *Prog, r *Report) {
 	}
 	respTrig := callbackTriggers(p, FN("FeatureLocal.responseMsgCallback"))
 	resTrig := callbackTriggers(p, FN("FeatureLocal.resultCallbacks"))
+	r.Rule("R6", "every hand-written element-wise comparison of two slices of one type compares their lengths for equality: a reply is never routed to the feature of an entity whose address is a prefix of the addressed one (shared lint, C20-R6)")
+	sliceEqualityHelpers(p, r, "R6")
 	r.Rule("R5", "registration is never dropped silently: AddResultCallback stores its callback on every path; AddResponseCallback on every path that does not return an error")
 	registrationRule(p, r, "R5", "AddResultCallback", "FeatureLocal.resultCallbacks")
 	registrationRule(p, r, "R5", "AddResponseCallback", "FeatureLocal.responseMsgCallback")
@@ -199,7 +202,7 @@ func checkC14(p *Prog, r *Report) {
 	}
 	r.Floor("R2", "HandleMessage implementations", nImpl, 2)
 
-	r.Rule("R4", "every trigger call passes the inbound msgCounterReference as key and a ResponseMessage carrying that reference, the receiving feature and the message's remote feature, entity and device")
+	r.Rule("R4", "every trigger call passes the inbound msgCounterReference as key and a ResponseMessage carrying that reference, the receiving feature, the message's remote feature, entity and device, and as data the data read from the received command (not a value returned by another call)")
 	nTrig := 0
 	for _, fn0 := range p.RepoFns("spine") {
 		fn := fn0
@@ -225,7 +228,7 @@ func checkC14(p *Prog, r *Report) {
 				okMsg := strings.HasSuffix(got["MsgCounterReference"], ".RequestHeader.MsgCounterReference") &&
 					(got["FeatureLocal"] == "recv" || strings.HasPrefix(got["FeatureLocal"], "recv")) &&
 					strings.HasSuffix(got["FeatureRemote"], ".FeatureRemote") && strings.HasSuffix(got["EntityRemote"], ".EntityRemote") && strings.HasSuffix(got["DeviceRemote"], ".DeviceRemote") &&
-					got["Data"] != ""
+					receivedData(got["Data"])
 				r.Check("R4", base, okKey && okMsg, p.InstrPos(c), fmt.Sprintf("key %s; message %v", Path(args[0]), got))
 			})
 		})
@@ -260,7 +263,7 @@ func responseMessageFields(v ssa.Value) map[string]string {
 		if fa, ok := ref.(*ssa.FieldAddr); ok {
 			for _, r2 := range *fa.Referrers() {
 				if st, ok := r2.(*ssa.Store); ok && st.Addr == ssa.Value(fa) {
-					got[fieldOfAddr(fa).Name()] = Path(st.Val)
+					got[fieldOfAddr(fa).Name()] = phiPaths(st.Val, 0)
 				}
 			}
 		}
@@ -358,4 +361,40 @@ func registrationRule(p *Prog, r *Report, rule string, method, role string) {
 		r.Check(rule, key, bypass == "", p.Pos(impl.Pos()), "every path that does not report an error stores the callback"+orStr(map[bool]string{true: "", false: "; the return at " + bypass + " is reached without storing it and without an error"}[bypass == ""], ""))
 	}
 	r.Floor(rule, "implementations of "+method, n, 1)
+}
+
+// phiPaths renders a value; a phi (a variable assigned on several branches) as the
+// alternatives of its edges, nil constants left out.
+func phiPaths(v ssa.Value, depth int) string {
+	if ph, ok := v.(*ssa.Phi); ok && depth < 4 {
+		var alts []string
+		for _, e := range ph.Edges {
+			if isNilConst(e) {
+				continue
+			}
+			alts = append(alts, phiPaths(e, depth+1))
+		}
+		sort.Strings(alts)
+		return strings.Join(alts, " or ")
+	}
+	if mi, ok := v.(*ssa.MakeInterface); ok {
+		if _, isPhi := mi.X.(*ssa.Phi); isPhi {
+			return phiPaths(mi.X, depth+1)
+		}
+	}
+	return Path(v)
+}
+
+// receivedData: every alternative is read from the command of the received
+// message (message.Cmd…), not a value returned by some other call.
+func receivedData(paths string) bool {
+	if paths == "" {
+		return false
+	}
+	for _, alt := range strings.Split(paths, " or ") {
+		if !strings.HasPrefix(alt, "param:") || !strings.Contains(alt, ".Cmd.") {
+			return false
+		}
+	}
+	return true
 }
